@@ -28,7 +28,7 @@ SPEC = {
                   "compared with the real Tracker after every event of generated scripts and with the real globalPinInfoCid/Slice on generated reply vectors; "
                   "monitors tied to the statements: cluster-wide view codes 30/31/32 sound and complete (gcid_/gslice_model_passes: a case carrying the model's answer yields []; "
                   "gcid_/gslice_monitor_sound), tracker codes 22/23 sound and complete for the model (views_agree_/filter_law_monitor_sound, model_views_pass); "
-                  "code 24 sound and complete for the model with >= 1 pin worker (pending_monitor_sound, model_pending_pass, via the dispatch fact of C05), codes 20/21 sound (truthful_monitor_sound); completeness of 20/21 for the model is not proved",
+                  "code 24 sound and complete for the model with >= 1 pin worker (pending_monitor_sound, model_pending_pass, via the dispatch fact of C05), codes 20/21 sound (truthful_monitor_sound); and complete for the model on stable scripts that follow the harness convention for RecoverAll (truthful_model_passes; the convention and stability are both shown necessary by example)",
     "level_note": "model tied to code by differential testing (generator-bounded); status classes are compared where the two views use different names "
                   "for the same fact (pin_error / unexpectedly_unpinned); truthfulness assumes a CID does not change between meta and non-meta without an unpin",
     "assumptions": ["connector/daemon contract of C16", "every change of the shared state is followed by the matching Track/Untrack",
